@@ -583,6 +583,67 @@ class Interp:
         self.unrecognised.append(f"value {show(t)[:100]}")
         return ("?", show(t)[:80])
 
+    # ---- raw sequence terms (elementwise pairing is a property of sequences, which the class sets forget)
+    def raw_reads(self, t: Term) -> list[tuple[str, Term]]:
+        """(column, raw collection term) of every column read in a value term, in order."""
+        if not isinstance(t, tuple):
+            return []
+        if t[0] in ("phi", "ifexp"):
+            return self.raw_reads(t[2])
+        if t[0] == "bin" and t[1] in ("+", "-"):
+            return self.raw_reads(t[2]) + self.raw_reads(t[3])
+        if t[0] == "call" and is_global(t[1], *MAX_FUNCS, *MIN_FUNCS, "numpy.add", "numpy.subtract", "float", "numpy.float64"):
+            out = []
+            for a in t[2]:
+                out += self.raw_reads(a)
+            return out
+        if t[0] == "call" and t[1][0] == "attr" and t[1][2] in ("max", "min") and not t[2]:
+            return self.raw_reads(t[1][1])
+        if t[0] == "call" and t[1][0] == "attr" and t[1][1] == self.game and len(t[2]) == 1 and not t[3]:
+            return [(t[1][2], t[2][0])]
+        if t[0] == "index" and t[1][0] == "call" and t[1][1][0] == "attr" and t[1][1][1] == self.game and not t[1][2]:
+            return [(t[1][1][2], t[2])]
+        return []
+
+    def compl_source(self, raw: Term, c: Term) -> Term | None:
+        """The sequence a complement term is the elementwise complement OF (None if raw is not a complement)."""
+        while is_call_to(raw, *LISTY) and raw[2]:
+            raw = raw[2][0]
+        if raw[0] == "comp" and len(raw[3]) == 1:
+            elem, it, conds = raw[3][0]
+            if self._compl_form(raw[2], elem, c) is not None and not conds:
+                return it
+            return None
+        if raw[0] == "bin" and raw[1] in ("^", "-"):
+            if self.is_c(raw[2], c):
+                return raw[3]
+            if self.is_c(raw[3], c):
+                return raw[2]
+        if is_call_to(raw, "numpy.bitwise_xor") and len(raw[2]) == 2:
+            if self.is_c(raw[2][0], c):
+                return raw[2][1]
+            if self.is_c(raw[2][1], c):
+                return raw[2][0]
+        return None
+
+    def same_sequence(self, value_term: Term, c: Term) -> bool | None:
+        """In ``V(X) op V(compl(X'))``: is X' the very sequence X (same order, same elements)?  None if not of that shape."""
+        reads = self.raw_reads(value_term)
+        pairs = []
+        srcs = [(col, raw, self.compl_source(raw, c)) for col, raw in reads]
+        for col, raw, srcx in srcs:
+            if srcx is not None:
+                others = [r for _, r, sx in srcs if sx is None]
+                pairs.append((srcx, others))
+        if not pairs:
+            return None
+
+        def strip(t: Term) -> Term:
+            while is_call_to(t, *LISTY) and t[2]:
+                t = t[2][0]
+            return t
+        return all(any(strip(srcx) == strip(o) for o in others) for srcx, others in pairs)
+
     def _single(self, t: Term, c: Term | None):
         if c is not None and self.is_c(t, c):
             return Single("SELF")
